@@ -39,6 +39,8 @@ fn build_file(rng: &mut Rng, nrec: usize, maxlen: usize, crlf: bool, final_newli
         };
         if exact_multiple {
             len = (len / w).max(1) * w; // last line is full width
+        } else if nrec > 1 && rng.chance(1, 12) {
+            len = 0; // a record without bases: header line only (samtools writes LINEBASES 0 / LINEWIDTH 0 for it)
         }
         let seq: Vec<u8> = (0..len).map(|i| b"ACGTacgtN"[(rng.usize(9) + i) % 9]).collect();
         let name = format!("seq{}", r);
@@ -52,9 +54,10 @@ fn build_file(rng: &mut Rng, nrec: usize, maxlen: usize, crlf: bool, final_newli
                 file.extend_from_slice(nl);
             }
         }
-        // .fai as samtools writes it: LINEBASES = bases on the first line
+        // .fai as samtools writes it: LINEBASES = bases on the first line (0 / 0 for a record without bases)
         let lb = w.min(len);
-        fai.push_str(&format!("{}\t{}\t{}\t{}\t{}\n", name, len, off, lb, lb + nl.len()));
+        let lw = if len == 0 { 0 } else { lb + nl.len() };
+        fai.push_str(&format!("{}\t{}\t{}\t{}\t{}\n", name, len, off, lb, lw));
         layout.push((off, lb + nl.len()));
         seqs.push(seq);
         names.push(name);
@@ -360,7 +363,7 @@ impl Monitor for C12 {
     }
     fn rule(&self) -> &'static str {
         "case = one FASTA file written by the harness (1-4 records, per-record uniform line width 1..=90, LF or CRLF, last line possibly full width, with/without final newline, \
-         record length 1..=2000 quick / 40000 thorough crossing the 512-byte iterator buffer and the 8 KiB BufReader) with its samtools-style .fai, opened through a seekable \
+         record length 0..=2000 quick / 40000 thorough (length 0 = header line only) crossing the 512-byte iterator buffer and the 8 KiB BufReader) with its samtools-style .fai, opened through a seekable \
          reader that fragments read() into 1..=c bytes (c in {1,2,3,7,64,unbounded}), optionally truncated at a random offset; then a history of 4-12 operations on one \
          IndexedReader: fetch / fetch_by_rid / fetch_all / fetch_all_by_rid with start/stop at 0, len, line starts, line ends, random; read into a buffer with stale content or \
          read_iter fully / half consumed with size_hint checked after every item; error classes unknown name, unknown rid, stop > len, start > stop, read before fetch; a second read through the other API without a new fetch; the path-based IndexedReader::from_file with Index::sequences(). Oracle: \
